@@ -287,30 +287,42 @@ def krylov_recording(max_dim=1100):
         ke.krylov_exp_impl = orig
 
 
-def krylov_step_excess(calls, hams, target_times):
-    """For an emu-sv noiseless run (one call per step, in order): per-step true local error of the Krylov routine.
+def krylov_step_excess(calls, hams, target_times, gens=None):
+    """Per-step true local error of the Krylov routine in an emu-sv run (one call per step, in order).
 
+    Noiseless: pass the step Hamiltonians `hams` (A = -i dt H, Hermitian flag True). Open system: pass `gens`, the dense
+    generators of d vec(rho)/dt per step (A = dt * gens[k], flag False).
     Returns (excess_total, n_known_mechanism, other [(step, err, tol)]): `excess_total` sums (err - 10 tol) over the
-    steps whose early stop is explained by the known error-estimate mechanism (vlib.krylov_model); `other` lists
-    steps that exceed 10 tol + rounding for any other reason.
+    steps whose inaccuracy is explained by the pinned algorithm itself (vlib.krylov_model replica: same stop, same
+    vector - the known optimistic-estimate finding); `other` lists steps inaccurate for any other reason.
     """
+    import scipy.linalg as sla
+
     from vlib import krylov_model
 
     excess, known, other = 0.0, 0, []
-    if len(calls) != len(hams):
+    ops = hams if gens is None else gens
+    if len(calls) != len(ops):
         return 0.0, 0, [(-1, float("nan"), float("nan"))]
-    for k, (c, H) in enumerate(zip(calls, hams)):
+    for k, (c, G) in enumerate(zip(calls, ops)):
         if c["vin"] is None or not c["converged"]:
             continue
         dt = (target_times[k + 1] - target_times[k]) * 1e-3
         vin = c["vin"].reshape(-1)
-        want = ref.expm_herm(H, dt) @ vin
+        if gens is None:
+            want = ref.expm_herm(G, dt) @ vin
+            A = -1j * dt * G
+            herm = True
+        else:
+            A = dt * G
+            want = sla.expm(A) @ vin
+            herm = False
         nv = float(np.linalg.norm(vin))
         err = float(np.linalg.norm(c["out"].reshape(-1) - want)) / nv
-        a2 = float(np.linalg.norm(H, 2)) * dt
+        a2 = float(np.linalg.norm(A, 2))
         if err <= 10 * c["tol"] + 2e-13 * (1 + a2) + 2e-10:  # 2e-10: accuracy floor of torch.linalg.matrix_exp (see C07)
             continue
-        if not c["happy"] and krylov_model.explained_by_pinned_algorithm(-1j * dt * H, vin, True, c["tol"], c["tol"], 100, c["out"], c["iters"]):
+        if not c["happy"] and krylov_model.explained_by_pinned_algorithm(A, vin, herm, c["tol"], c["tol"], 100, c["out"], c["iters"]):
             excess += (err - 10 * c["tol"]) * nv
             known += 1
         else:
